@@ -363,6 +363,11 @@ Definition range_expect (prop : string) (i : sinput) (hint : range_hint) (o : so
           ++ (if (L <=? sum_lens rs) then check (o_status o =? 200) prop "complete-200-when-the-ranges-cover-the-entity" else [])
           ++ (if multipart && is_get i then
                 check (calls_eqb (o_calls o) (firstn (List.length (o_calls o)) rs)) prop "multipart-ranges-in-request-order"
+                (* "a multipart 206 of exactly those ranges": a body that ended cleanly has read every one of them *)
+                ++ (match snd (until_terminal (o_polls o)) with
+                    | Some OEnd => check (calls_eqb (o_calls o) rs) prop "multipart-of-exactly-those-ranges"
+                    | _ => []
+                    end)
               else [])
           ++ (if (o_status o =? 200) then
                 check (match cr with [] => true | _ => false end) prop "fallback-200-no-content-range"
